@@ -9,7 +9,7 @@ rm -rf $wt $out; mkdir -p $out
 git -C /repo worktree prune
 git -C /repo worktree add -q --detach $wt HEAD || exit 9
 if ! git -C $wt apply /verif/seeded/$name/patch.diff; then echo "PATCH DOES NOT APPLY"; git -C /repo worktree remove --force $wt; exit 9; fi
-cd /verif && VERIF_REPO=$wt VERIF_OUT=$out ./bin/vcheck run $prop "$@"; rc=$?
+cd /verif && VERIF_REPO=$wt VERIF_OUT=$out ${VCHECK:-./bin/vcheck} run $prop "$@"; rc=$?
 git -C /repo worktree remove --force $wt; rm -rf $wt
 echo "mutant=$name property=$prop exit=$rc"
 exit $rc
